@@ -71,6 +71,19 @@ def cleanup_directory(directory, before_timestamp, remove_all=False, remove_empt
 
     if file_handler is None:
         if remove_all:
+            if os.path.islink(directory):
+                # rmtree refuses symbolic links: empty the directory it
+                # points to (a level moved to another volume), keep the link
+                for entry in os.listdir(directory):
+                    entry = os.path.join(directory, entry)
+                    if os.path.isdir(entry) and not os.path.islink(entry):
+                        shutil.rmtree(entry, ignore_errors=True)
+                    else:
+                        try:
+                            os.remove(entry)
+                        except OSError:
+                            pass
+                return
             shutil.rmtree(directory, ignore_errors=True)
             return
 
@@ -107,7 +120,8 @@ def remove_dir_if_empty(directory):
         os.rmdir(directory)
         return True
     except OSError as ex:
-        if ex.errno != errno.ENOENT and ex.errno != errno.ENOTEMPTY:
+        # ENOTDIR: a symbolic link to a directory, it is kept
+        if ex.errno not in (errno.ENOENT, errno.ENOTEMPTY, errno.ENOTDIR):
             raise
         return False
 
